@@ -3,16 +3,26 @@
 #define AF_BYTES_IMPL_H
 static void vb_af_write_const(struct AbstractFile *f, const char *s, int64_t n)
 {
-    VB_AF_CHECK(n >= 0 && f->p >= 0 && f->p + n <= f->cap, "harness bound: stream capacity");
-    for (int64_t i = 0; i < n; i++) f->buf[f->p + i] = (uint8_t)s[i];
+    VB_AF_CHECK(n >= 0 && f->p >= 0 && f->p + n <= f->cap, "C01/stream/write-length-within-the-capacity-sized-for-the-object");
+    if (!(n >= 0 && f->p >= 0 && f->p + n <= f->cap)) return;
+    if (n > 16) memcpy(f->buf + f->p, s, (size_t)n);          /* bulk members (arrays): one array operation */
+    else for (int64_t i = 0; i < n; i++) f->buf[f->p + i] = (uint8_t)s[i];   /* scalars: byte-wise, so that constants fold */
     f->p += n;
 }
 static void vb_af_write_sym(struct AbstractFile *f, const char *s, int64_t n)
 {
-    VB_AF_CHECK(n >= 0 && f->p >= 0 && f->p + n <= f->cap, "harness bound: stream capacity");
+    VB_AF_CHECK(n >= 0 && f->p >= 0 && f->p + n <= f->cap, "C01/stream/write-length-within-the-capacity-sized-for-the-object");
+    if (!(n >= 0 && f->p >= 0 && f->p + n <= f->cap)) return;
     for (int64_t i = 0; i < n; i++) f->buf[f->p + i] = (uint8_t)s[i];
     f->p += n;
 }
+#ifdef VB_OVERLAY
+#define VB_AF_BYTE(f, idx) (((idx) >= (f)->ovl_off && (idx) < (f)->ovl_end) ? (uint8_t)((f)->ovl_val >> (8 * ((idx) - (f)->ovl_off))) : (f)->buf[idx])
+#else
+#define VB_AF_BYTE(f, idx) ((f)->buf[idx])
+#endif
+#define VB_AF_SKIPPED(f, idx) (((f)->nskip > 0 && (idx) >= (f)->skip_lo[0] && (idx) < (f)->skip_hi[0]) || ((f)->nskip > 1 && (idx) >= (f)->skip_lo[1] && (idx) < (f)->skip_hi[1]) || \
+    ((f)->nskip > 2 && (idx) >= (f)->skip_lo[2] && (idx) < (f)->skip_hi[2]) || ((f)->nskip > 3 && (idx) >= (f)->skip_lo[3] && (idx) < (f)->skip_hi[3]))
 static int64_t vb_af_read_prep(struct AbstractFile *f, int64_t n)
 {
     if (n + f->g > f->fileSize) { n = f->fileSize - f->g; f->rdstate = IOS_eofbit | IOS_failbit; }
@@ -23,19 +33,50 @@ static int64_t vb_af_read_prep(struct AbstractFile *f, int64_t n)
 static void vb_af_read_const(struct AbstractFile *f, char *s, int64_t n)
 {
     n = vb_af_read_prep(f, n);
-    for (int64_t i = 0; i < n; i++) s[i] = (char)f->buf[f->g + i];
+#ifdef VB_OVERLAY
+    if (n > 16 && (f->ovl_end <= f->g || f->ovl_off >= f->g + n)) memcpy(s, f->buf + f->g, (size_t)n);
+    else
+#else
+    if (n > 16) memcpy(s, f->buf + f->g, (size_t)n);
+    else
+#endif
+    for (int64_t i = 0; i < n; i++) s[i] = (char)VB_AF_BYTE(f, f->g + i);
     f->g += n; f->gcount = n;
 }
+#ifdef VB_REF_GUIDED
+/* C02: the decode of a derived image must make the same sequence of reads / resizes / seeks as the decode of the
+ * reference image ("same shape"); the first deviation ends the decode (outside the property's domain).  Inside the
+ * domain every length is then the CONCRETE value recorded from the reference decode. */
+#define VB_REF_MAX 256
+int64_t vb_ref_val[VB_REF_MAX]; int vb_ref_n; int vb_ref_k; int vb_ref_mode; /* 0 off, 1 record, 2 replay */ int vb_ref_diverged;
+/* macro, not a function: the surviving path must carry the recorded CONCRETE value, not a merged one */
+#define VB_REF_APPLY(n, T) do { \
+    if (vb_ref_mode == 1) { __CPROVER_assert(vb_ref_n < VB_REF_MAX, "harness bound: reference call log"); vb_ref_val[vb_ref_n++] = (int64_t)(n); } \
+    else if (vb_ref_mode == 2) { \
+        int vb_k = vb_ref_k; vb_ref_k = vb_k + 1;   /* advanced on every path, so that it stays concrete after paths merge */ \
+        if (vb_k >= vb_ref_n || (int64_t)(n) != vb_ref_val[vb_k]) { vb_ref_diverged = 1; vb_exc = VB_EXC_STD; return; } \
+        (n) = (T)vb_ref_val[vb_k]; } } while (0)
+#else
+#define VB_REF_APPLY(n, T) do { } while (0)
+#endif
 static void vb_af_read_sym(struct AbstractFile *f, char *s, int64_t n)
 {
+    VB_REF_APPLY(n, int64_t);
     n = vb_af_read_prep(f, n);
-    for (int64_t i = 0; i < n; i++) s[i] = (char)f->buf[f->g + i];
+    for (int64_t i = 0; i < n; i++) s[i] = (char)VB_AF_BYTE(f, f->g + i);
     f->g += n; f->gcount = n;
 }
 static void vb_af_seekg(struct AbstractFile *f, int64_t off, int way)
 {
+    VB_REF_APPLY(off, int64_t);
     int64_t t = f->g + off;
-    f->g = t < f->fileSize ? t : f->fileSize;
+    int64_t ng = t < f->fileSize ? t : f->fileSize;
+#ifdef VB_OVERLAY
+    /* bytes the decoder skips (alignment padding, unused union parts) are not fields: remembered so that the
+       re-encoding is not compared against an overwrite of them (the encoder writes zeros there by design, C14) */
+    if (ng > f->g && f->nskip < 4) { f->skip_lo[f->nskip] = f->g; f->skip_hi[f->nskip] = ng; f->nskip++; }
+#endif
+    f->g = ng;
 }
 static int64_t vb_af_tellg(struct AbstractFile *f) { return (f->rdstate & (IOS_failbit | IOS_badbit)) ? -1 : f->g; }
 static int64_t vb_af_tellp(struct AbstractFile *f) { return (f->rdstate & (IOS_failbit | IOS_badbit)) ? -1 : f->p; }
